@@ -177,6 +177,17 @@ def run_fragment(body: Sequence[ast.stmt], names: Dict[str, Any], attrs: Optiona
                 c = st.value
                 if isinstance(c, ast.Call) and isinstance(c.func, ast.Attribute) and c.func.attr in ("append", "extend", "insert", "pop", "reverse", "remove") and isinstance(c.func.value, ast.Name) and isinstance(env.get(c.func.value.id), list):
                     list_method(c)
+                elif isinstance(c, ast.Call) and isinstance(c.func, ast.Attribute) and c.func.attr in ("fill_", "copy_") and len(c.args) == 1 and isinstance(c.func.value, (ast.Attribute, ast.Name)):
+                    # in-place overwrite of a scalar buffer / variable
+                    from .astutil import attr_chain as _ch
+
+                    tgt_ = _ch(c.func.value) if isinstance(c.func.value, ast.Attribute) else None
+                    if tgt_ is not None and tgt_ in attrs and not isinstance(attrs[tgt_], list):
+                        attrs[tgt_] = fold(c.args[0])
+                    elif isinstance(c.func.value, ast.Name) and c.func.value.id in env and not isinstance(env[c.func.value.id], list):
+                        env[c.func.value.id] = fold(c.args[0])
+                    else:
+                        raise Unfoldable("in-place fill of a non-scalar")
                 elif isinstance(c, ast.Call) and isinstance(c.func, ast.Attribute) and c.func.attr in ("add", "discard", "update") and isinstance(c.func.value, ast.Name) and isinstance(env.get(c.func.value.id), set) and len(c.args) == 1:
                     cur_ = set(env[c.func.value.id])
                     a_ = fold(c.args[0])
@@ -263,7 +274,10 @@ def run_fragment(body: Sequence[ast.stmt], names: Dict[str, Any], attrs: Optiona
             elif isinstance(st, ast.Raise):
                 raise FragRaise()
             elif isinstance(st, ast.Return):
-                raise FragReturn(fold(st.value) if st.value is not None else None)
+                fr = FragReturn(fold(st.value) if st.value is not None else None)
+                fr.env = dict(env)  # state at the point of return
+                fr.env["__attrs__"] = attrs
+                raise fr
             else:
                 raise Unfoldable(f"statement {type(st).__name__}")
 
